@@ -11,7 +11,7 @@ RULES = {
     'C07.R5': 'definedness under on-the-fly pruning (shared with C03): the composition removes a grafted branch only on a false explore(), never the last branch of a decision, and is_edge_feasible says false only on an Infeasible answer',
     'C07.R4': 'AffFunc operators are element-wise on both fields with the impl\'s own operator, left operand first; Neg negates both fields',
 }
-FLOORS = {'C07.R1': 33, 'C07.R3': 6, 'C07.R4': 17, 'C07.R2': 4, 'C07.R5': 6}
+FLOORS = {'C07.R1': 33, 'C07.R3': 6, 'C07.R4': 17, 'C07.R2': 4, 'C07.R5': 7}
 EXPLANATION = ('Sibling agreement over 4 operators x 8 ownership forms (+Neg) and the element-wise kernels; with C02.R1 (graft structure) the result is defined exactly '
                'when both operands are and its terminal is context.op(original), i.e. left.op(right).')
 DOES_NOT_DECIDE = 'nothing value-level beyond exact arithmetic; pruning on the fly is covered by C03'
@@ -179,6 +179,7 @@ def run(ctx):
     prune.check_removals(sub, 'C07.R5')
     prune.check_childless(sub, 'C07.R5')
     prune.check_edge_feasible_table(sub, 'C07.R5')
+    prune.check_root_edges_kept(sub, 'C07.R5')
     for i in sub.insts:
         if i.site.startswith('AffTree::generic_composition_inplace#') or i.site.startswith('AffTree::is_edge_feasible#'):
             ctx.insts.append(i)
